@@ -22,6 +22,25 @@ const TEMPLATES: [&str; 34] = [
     "{'k': (#)}.k",
 ];
 
+/// logic/conditional positions with every kind of literal as the sibling operand (the
+/// interpreter decides by truthiness, so any literal kind can keep the other operand live)
+fn sibling_templates() -> Vec<String> {
+    let lits = ["true", "false", "1", "0", "'a'", "''", "null", "2.5", "0.0", "1u", "0u", "[1]", "[]", "{}", "{1: 1}", "b'a'", "b''"];
+    let mut v = vec![];
+    for l in lits {
+        v.push(format!("{} && (#)", l));
+        v.push(format!("{} || (#)", l));
+        v.push(format!("(#) && {}", l));
+        v.push(format!("(#) || {}", l));
+        v.push(format!("{} ? (#) : 2", l));
+        v.push(format!("{} ? 1 : (#)", l));
+        v.push(format!("!({}) || (#)", l));
+        v.push(format!("[1].all(x, {} && (#))", l));
+        v.push(format!("[1].exists(x, {} || (#))", l));
+    }
+    v
+}
+
 fn fill(t: &str, fillers: &[&String]) -> String {
     let mut out = String::new();
     let mut k = 0;
@@ -41,7 +60,9 @@ fn holes(t: &str) -> usize {
 }
 
 /// all programs of template depth exactly 1 (holes filled by the base fillers)
-fn level(prev: &[String]) -> Vec<String> {
+/// returns (programs from the base position templates, programs from the sibling-literal
+/// templates); only the former are used as fillers of the next level
+fn level(prev: &[String]) -> (Vec<String>, Vec<String>) {
     // fillers derived from the previous level: the programs themselves, and the two call
     // wrappers around them
     let mut fillers: Vec<String> = vec!["v1".into(), "v2".into(), "g1(v1)".into(), "v2.g2(v1)".into(), "g1(v2)".into(), "v1.g2(v2)".into()];
@@ -52,6 +73,12 @@ fn level(prev: &[String]) -> Vec<String> {
         fillers.push(format!("v2.g2({})", p));
     }
     let mut out = vec![];
+    let mut out_sib = vec![];
+    for t in sibling_templates().iter() {
+        for f in fillers.iter() {
+            out_sib.push(fill(t, &[f]));
+        }
+    }
     for t in TEMPLATES.iter() {
         if holes(t) == 1 {
             for f in fillers.iter() {
@@ -68,7 +95,7 @@ fn level(prev: &[String]) -> Vec<String> {
             }
         }
     }
-    out
+    (out, out_sib)
 }
 
 struct Ctx {
@@ -143,9 +170,9 @@ pub fn run(run: &mut Run) {
         // the derived fillers of the deepest level are thinned to every k-th program so that the
         // last level stays enumerable; all shallower levels are complete
         let base: Vec<String> = if d == 3 { prev.iter().step_by(7).cloned().collect() } else { prev.clone() };
-        let progs = level(&base);
+        let (progs, sib) = level(&base);
         run.sub(&format!("depth{}", d));
-        for src in progs.iter() {
+        for src in progs.iter().chain(sib.iter()) {
             if !run.take() {
                 continue;
             }
